@@ -202,16 +202,27 @@ PROPS['C10'] = {
     'queries': [dict(name='placement_two_pools', kernel='C10_placement.cpp', prefix='plc_', mode='seq', inline=20000, unwind=26, covers=[0], timeout=1800)],
 }
 
+def _c15(n, m, sh, shape, tiers):
+    return dict(name='%s_%s' % (n, sh), kernel='C15_affinity.cpp', prefix='aff_', mode='seq', inline=20000, unwind=10, lower_defs=['-DPIKA_HAVE_MAX_CPU_COUNT=64'], params=[m] + list(shape), covers=[0], unwind_obligation=True,
+                timeout=3000, tiers=tiers)
+
+
 _modes = {'compact': 1, 'scatter': 2, 'balanced': 4, 'numa_balanced': 8}
 PROPS['C15'] = {
     'assumptions': [
         'Real parse_affinity_options.cpp decode_*_distribution + check_num_threads; hwloc is the environment: the topology member functions used by the decoder are defined over a symbolic machine '
         '(core index modulo #cores, PU index modulo arity, PU numbering consecutive). Mask representation: the 64-bit configuration (PIKA_HAVE_MAX_CPU_COUNT=64).',
-        'Machine SHAPE is a parameter of each query (sockets x cores/socket x PUs/core); process mask (any non-empty subset), thread count in [1,#PUs+1] and use-of-mask are symbolic; used_cores = 0; error mode throws.',
+        'Machine SHAPE is a parameter of each query (sockets x cores/socket x PUs/core, also asymmetric); process mask (any non-empty subset), thread count in [1,#PUs+1] and use-of-mask are symbolic; used_cores = 0; error mode throws.',
+        'std::vector is replaced, for the body of parse_affinity_options.cpp only, by a fixed-capacity stand-in with the same interface (kernels/env_fixed_vector.hpp, capacity 8; exceeding it or indexing out of range is an assertion failure).',
         'Not covered: affinity_data / resource-partitioner pool assignment, the worker applying the mask through hwloc, binding "none".',
     ],
-    'queries': [dict(name='%s_s2c1p2' % n, kernel='C15_affinity.cpp', prefix='aff_', mode='seq', inline=20000, unwind=6, lower_defs=['-DPIKA_HAVE_MAX_CPU_COUNT=64'], params=[m, 2, 1, 2], covers=[0], timeout=3000)
-                for n, m in _modes.items()] +
-               [dict(name='%s_s2c2p1' % n, kernel='C15_affinity.cpp', prefix='aff_', mode='seq', inline=20000, unwind=6, lower_defs=['-DPIKA_HAVE_MAX_CPU_COUNT=64'], params=[m, 2, 2, 1], covers=[0], timeout=6000,
-                     tiers=('thorough',)) for n, m in _modes.items()],
+    'queries': [_c15(n, m, sh, (S, C, P), tiers) for n, m in _modes.items() for sh, (S, C, P), tiers in [
+        ('s2c1p2', (2, 1, 2), ('quick', 'thorough')),      # 2 sockets x 1 core x 2 PUs (SMT, multi-socket)
+        ('s2c21p1', (2, 21, 1), ('quick', 'thorough')),    # asymmetric: socket 0 has 2 cores, socket 1 has 1
+        ('s2c2p1', (2, 2, 1), ('thorough',)),
+        ('s1c2p2', (1, 2, 2), ('thorough',)),
+        ('s1c2p21', (1, 2, 21), ('thorough',)),            # asymmetric SMT: core 0 has 2 PUs, core 1 has 1
+        ('s2c1p12', (2, 1, 12), ('thorough',)),
+        ('s3c1p1', (3, 1, 1), ('thorough',)),             # three sockets: per-socket rounding of the thread share
+    ]],
 }
